@@ -3,7 +3,7 @@
    Subject: `encode` / `bparse` of Codec/Model.v (the schema-interpreting model of the generated Encode / Parse over a
    BufferReader) on the schemas of Codec/GenSchemas.v, which are re-translated from the source on every run.
    The last sentence of the property (generated code = generator output) is a finite direct decision made by the check. *)
-From Codec Require Import Schema Readers Model Spec GenSchemas SchemasWf LeafLemmas Roundtrip Theorems13 LengthExact DecodeThms.
+From Codec Require Import Schema Readers Model Spec GenSchemas SchemasWf LeafLemmas Roundtrip Theorems13 LengthExact DecodeThms Sim SimWr WireThms.
 Open Scope N_scope.
 
 (* the schemas the generator front end parses from the current definitions are well formed (79 models at pin time) *)
@@ -78,6 +78,43 @@ Theorem unknown_critical_rejected_decode : forall sc, schema_wf sc = true ->
   decode sc mi false (concat es1 ++ tl_enc t ++ tl_enc l ++ junk) = Err E_CRITICAL.
 Proof. exact decode_unknown_critical_rejected. Qed.
 Print Assumptions unknown_critical_rejected_decode.
+
+(* ---- the segmented reader ----
+   reader refinement: for every schema, model, flag and every list of buffers (empty ones included), the generated parser
+   through the WireReader returns the same value, or the same error, as through a BufferReader on the joined bytes *)
+Theorem wirereader_refines_buffer : forall sc mi ic (segs : list bytes),
+  match decode_wire sc mi ic segs, decode sc mi ic (concat segs) with
+  | Ok (v1, _, _), Ok (v2, _, _) => v1 = v2
+  | Err e1, Err e2 => e1 = e2
+  | _, _ => False
+  end.
+Proof. exact SimWr.wirereader_refines_buffer. Qed.
+Print Assumptions wirereader_refines_buffer.
+
+Theorem codec_roundtrip_wire : forall sc, schema_wf sc = true ->
+  forall fuel mi vs ic segs, wf_value fuel sc mi vs = true -> small (encode fuel sc mi vs) ->
+  concat segs = encode fuel sc mi vs ->
+  exists ctx cov, decode_wire sc mi ic segs = Ok (vs, ctx, cov).
+Proof. exact decode_wire_roundtrip. Qed.
+Print Assumptions codec_roundtrip_wire.
+
+Theorem unknown_noncritical_skipped_wire : forall sc, schema_wf sc = true ->
+  forall f mi vs ic es1 es2 t pl segs, wf_value (S f) sc mi vs = true -> small (encode (S f) sc mi vs) ->
+  elements f sc mi vs = es1 ++ es2 ->
+  find_field t 0 (flds (the_model sc mi)) = None -> (ic = true \/ critical t = false) -> t < two64 -> small pl ->
+  concat segs = concat es1 ++ tlv t pl ++ concat es2 ->
+  exists ctx cov, decode_wire sc mi ic segs = Ok (vs, ctx, cov).
+Proof. exact decode_wire_unknown_skipped. Qed.
+Print Assumptions unknown_noncritical_skipped_wire.
+
+Theorem unknown_critical_rejected_wire : forall sc, schema_wf sc = true ->
+  forall f mi vs es1 es2 t l junk segs, wf_value (S f) sc mi vs = true -> small (encode (S f) sc mi vs) ->
+  elements f sc mi vs = es1 ++ es2 ->
+  find_field t 0 (flds (the_model sc mi)) = None -> critical t = true -> t < two64 -> l < two64 ->
+  concat segs = concat es1 ++ tl_enc t ++ tl_enc l ++ junk ->
+  decode_wire sc mi false segs = Err E_CRITICAL.
+Proof. exact decode_wire_unknown_critical_rejected. Qed.
+Print Assumptions unknown_critical_rejected_wire.
 
 (* the elements are the encoding *)
 Theorem elements_are_encoding : forall f sc mi vs, wf_value (S f) sc mi vs = true ->
